@@ -26,6 +26,9 @@ const (
 	flowNot
 	flowSub
 	flowFor
+	flowCFor  // for ((j=0; j<2; j++))
+	flowWhile // w=0; while [ $((w+=1)) -le 2 ]
+	flowRedir // { ...; } </nonexistent/f : the group is not run
 	flowAnd
 	flowOr
 	flowIf
@@ -34,7 +37,7 @@ const (
 	flowKinds
 )
 
-var flowArity = [flowKinds]int{0, 0, 0, 0, 0, 0, 0, 1, 1, 1, 2, 2, 2, 2, 3}
+var flowArity = [flowKinds]int{0, 0, 0, 0, 0, 0, 0, 1, 1, 1, 1, 1, 1, 2, 2, 2, 2, 3}
 
 // verifFlowGen builds a tree of at most budget nodes from choices made by pick;
 // ok is false when the chosen kind does not fit the budget. Every tree of up
@@ -59,12 +62,31 @@ func verifFlowGen(budget int, path string, pick func(id string, n int) int) (n *
 	return n, used, true
 }
 
+// hasDoubleNot: "! !", which the parser under test rejects, or a negated
+// command whose redirection fails, which bash does not negate.
 func (n *flowNode) hasDoubleNot() bool {
-	if n.kind == flowNot && n.kids[0].kind == flowNot {
+	if n.kind == flowNot && (n.kids[0].kind == flowNot || n.kids[0].kind == flowRedir) {
 		return true
 	}
 	for _, k := range n.kids {
 		if k.hasDoubleNot() {
+			return true
+		}
+	}
+	return false
+}
+
+// hasNotCompound: a negated group, conditional or loop. bash runs the ERR trap
+// for failing commands inside it although it ignores them for set -e.
+func (n *flowNode) hasNotCompound() bool {
+	if n.kind == flowNot {
+		switch k := n.kids[0]; {
+		case k.isList(), k.kind == flowIf, k.kind == flowIfElse, k.kind == flowFor, k.kind == flowCFor, k.kind == flowWhile, k.kind == flowRedir:
+			return true
+		}
+	}
+	for _, k := range n.kids {
+		if k.hasNotCompound() {
 			return true
 		}
 	}
@@ -78,12 +100,16 @@ func (n *flowNode) isList() bool {
 // text renders the tree; operands of !, && and || that are lists themselves
 // are wrapped in braces (the right operand always, the left one of && and ||
 // only for a sequence, since the lists associate to the left).
-func (n *flowNode) text() string {
+func (n *flowNode) text() string { return n.textAt(0) }
+
+// textAt: d is the number of enclosing loops, used to name loop counters.
+func (n *flowNode) textAt(d int) string {
+	dd := string(rune('0' + d))
 	wrap := func(k *flowNode, always bool) string {
-		if k.kind == flowSeq || (always && k.isList()) {
-			return "{ " + k.text() + "; }"
+		if k.kind == flowSeq || k.kind == flowWhile || (always && k.isList()) {
+			return "{ " + k.textAt(d) + "; }"
 		}
-		return k.text()
+		return k.textAt(d)
 	}
 	switch n.kind {
 	case flowTrue:
@@ -103,19 +129,25 @@ func (n *flowNode) text() string {
 	case flowNot:
 		return "! " + wrap(n.kids[0], true)
 	case flowSub:
-		return "( " + n.kids[0].text() + " )"
+		return "( " + n.kids[0].textAt(d) + " )"
 	case flowFor:
-		return "for i in 1 2; do " + n.kids[0].text() + "; done"
+		return "for i in 1 2; do " + n.kids[0].textAt(d+1) + "; done"
+	case flowCFor:
+		return "for ((j" + dd + "=0; j" + dd + "<2; j" + dd + "++)); do " + n.kids[0].textAt(d+1) + "; done"
+	case flowWhile:
+		return "w" + dd + "=0; while [ $((w" + dd + "+=1)) -le 2 ]; do " + n.kids[0].textAt(d+1) + "; done"
+	case flowRedir:
+		return "{ " + n.kids[0].textAt(d) + "; } </nonexistent/f"
 	case flowAnd:
 		return wrap(n.kids[0], false) + " && " + wrap(n.kids[1], true)
 	case flowOr:
 		return wrap(n.kids[0], false) + " || " + wrap(n.kids[1], true)
 	case flowIf:
-		return "if " + n.kids[0].text() + "; then " + n.kids[1].text() + "; fi"
+		return "if " + n.kids[0].textAt(d) + "; then " + n.kids[1].textAt(d) + "; fi"
 	case flowSeq:
-		return n.kids[0].text() + "; " + n.kids[1].text()
+		return n.kids[0].textAt(d) + "; " + n.kids[1].textAt(d)
 	case flowIfElse:
-		return "if " + n.kids[0].text() + "; then " + n.kids[1].text() + "; else " + n.kids[2].text() + "; fi"
+		return "if " + n.kids[0].textAt(d) + "; then " + n.kids[1].textAt(d) + "; else " + n.kids[2].textAt(d) + "; fi"
 	}
 	return ""
 }
@@ -132,14 +164,20 @@ type refFlow struct {
 	exited  bool
 	status  int
 	outside bool // a case the reference does not model
+	errTrap bool // trap 'echo T' ERR is set (not inherited by subshells)
 }
 
 func (s *refFlow) unwinding() bool { return s.exited || s.brk > 0 || s.cont > 0 || s.outside }
 
 // fail applies set -e to a command that finished with a non-zero status.
 func (s *refFlow) fail(st int, ignore bool) {
-	if st != 0 && s.errexit && !ignore {
-		s.exited, s.status = true, st
+	if st != 0 && !ignore {
+		if s.errTrap {
+			s.out = append(s.out, "T\n"...)
+		}
+		if s.errexit {
+			s.exited, s.status = true, st
+		}
 	}
 }
 
@@ -212,7 +250,11 @@ func (s *refFlow) run(n *flowNode, ignore bool) int {
 			return st
 		}
 		return s.run(n.kids[1], ignore)
-	case flowFor:
+	case flowRedir:
+		// the redirection fails: the group is not run, its status is 1
+		s.fail(1, ignore)
+		return 1
+	case flowFor, flowCFor, flowWhile:
 		s.depth++
 		st := 0
 		for i := 0; i < 2; i++ {
@@ -234,7 +276,7 @@ func (s *refFlow) run(n *flowNode, ignore bool) int {
 		s.depth--
 		return st
 	case flowSub:
-		if k := n.kids[0]; k.kind == flowNot && k.kids[0].isList() && s.errexit {
+		if k := n.kids[0]; k.kind == flowNot && (k.kids[0].isList() || k.kids[0].kind == flowWhile || k.kids[0].kind == flowRedir) && s.errexit {
 			// bash 5.2 quirk: in "( ! { false; true; } )" under set -e the
 			// group is left at its first failing command
 			s.outside = true
@@ -258,32 +300,47 @@ func (s *refFlow) run(n *flowNode, ignore bool) int {
 
 // refFlowProgram returns the program text for the tree, what bash prints and
 // its exit status; ok is false where the reference does not model bash.
-func refFlowProgram(n *flowNode, errexit bool) (src, out string, status int, ok bool) {
+// trap: 0 none, 1 an ERR trap printing T, 2 an EXIT trap printing X.
+func refFlowProgram(n *flowNode, errexit bool, trap int) (src, out string, status int, ok bool) {
 	if n.hasDoubleNot() {
 		return "", "", 0, false // rejected by the parser under test
+	}
+	if trap == 1 && n.hasNotCompound() {
+		return "", "", 0, false // bash is irregular here, see hasNotCompound
 	}
 	if errexit {
 		src = "set -e\n"
 	}
+	switch trap {
+	case 1:
+		src += "trap 'echo T' ERR\n"
+	case 2:
+		src += "trap 'echo X' EXIT\n"
+	}
 	src += n.text() + "\necho end $?\n"
-	s := &refFlow{errexit: errexit}
+	s := &refFlow{errexit: errexit, errTrap: trap == 1}
 	st := s.run(n, false)
 	if s.outside {
 		return src, "", 0, false
 	}
-	if s.exited {
-		return src, string(s.out), s.status, true
+	tail := ""
+	if trap == 2 {
+		tail = "X\n"
 	}
-	return src, string(s.out) + "end " + string(rune('0'+st)) + "\n", 0, true
+	if s.exited {
+		return src, string(s.out) + tail, s.status, true
+	}
+	return src, string(s.out) + "end " + string(rune('0'+st)) + "\n" + tail, 0, true
 }
 
 // Verif_c26_flow: every command tree of up to size nodes, with and without
-// set -e, prints what bash prints and exits with bash's status.
+// set -e, and with an ERR or EXIT trap (parameter trap), prints what bash
+// prints and exits with bash's status.
 func Verif_c26_flow() {
 	n, _, ok := verifFlowGen(verifParam("size"), "", verifChoice)
 	verifAssume(ok)
 	errexit := verifChoice("errexit", 2) == 1
-	src, want, wantSt, ok := refFlowProgram(n, errexit)
+	src, want, wantSt, ok := refFlowProgram(n, errexit, verifParam("trap"))
 	verifAssume(ok)
 	f, err := syntax.NewParser().Parse(strings.NewReader(src), "")
 	verifAssert(err == nil, "a program bash accepts is rejected")
